@@ -1,5 +1,5 @@
 (* C18 — standard-library shapes, CSG and transforms mean what they say.  Statements only;
-   proofs in Stdlib/StdSem.v and Stdlib/StdGeom.v.
+   proofs in Stdlib/StdSem.v, Stdlib/StdGeom.v and Stdlib/StdRounded.v.
 
    The constants s_sphere, s_move, ... are those of Gen/Stdlib_gen.v, which
    translate/gen_stdlib.py regenerates from libfive/stdlib/stdlib_impl.cpp on every run: each
@@ -11,7 +11,7 @@
    argument); "primes" in comments are their values. *)
 From Coq Require Import Reals List.
 From LF Require Import Base.Opcode Base.Num Base.Arena Base.Sem Tree.Build Tree.BuildSem
-  Stdlib.SExpr Gen.Stdlib_gen Eval.DerivSem Stdlib.StdSem Stdlib.StdGeom.
+  Stdlib.SExpr Gen.Stdlib_gen Eval.DerivSem Stdlib.StdSem Stdlib.StdGeom Stdlib.StdRounded.
 Local Open Scope R_scope.
 
 (* building a term through the Tree constructors (all simplification rules of tree.cpp
@@ -185,6 +185,91 @@ Section C18.
     destruct (box_exact_centered_inside_dist osem a s1 s2 s3 c1 c2 c3 r Hin) as (_ & _ & H3 & H4 & H5).
     repeat split; assumption.
   Qed.
+
+  (* ---- rounded shapes ---- *)
+  (* rounded_rectangle(a, b, rad): "a rectangle with rounded corners".
+     (1) for every radius >= 0 it is exactly the union of its six open pieces: the two
+         rectangles (a1,b1) x (a2+rad, b2-rad), (a1+rad, b1-rad) x (a2,b2) and the four discs of
+         radius rad about the corners of the inner rectangle [a1+rad, b1-rad] x [a2+rad, b2-rad]
+         -- in particular about (b1 - rad, a2 + rad);
+     (2) for a POSITIVE radius on the documented domain a + 2 rad <= b it is the set of points
+         at distance < rad from the inner rectangle (clamp the point to the inner rectangle).
+         The seams between the open pieces are covered because the discs overlap them.
+         (2) is false at rad = 0, where the shape is the open rectangle (a1,b1) x (a2,b2):
+         StdRounded.rounded_rectangle_geom_zero_radius_refuted. *)
+  Theorem C18_rounded_rectangle : forall a1 a2 b1 b2 rad r, indep rad -> 0 <= D rad r ->
+    let x := ex r in let y := ey r in let rho := D rad r in
+    let A1 := D a1 r + rho in let B1 := D b1 r - rho in
+    let A2 := D a2 r + rho in let B2 := D b2 r - rho in
+    (inside (s_rounded_rectangle RD (V2 a1 a2) (V2 b1 b2) rad) r <->
+       (D a1 r < x < D b1 r /\ A2 < y < B2) \/
+       (A1 < x < B1 /\ D a2 r < y < D b2 r) \/
+       (x - A1) ^ 2 + (y - A2) ^ 2 < rho ^ 2 \/
+       (x - B1) ^ 2 + (y - B2) ^ 2 < rho ^ 2 \/
+       (x - A1) ^ 2 + (y - B2) ^ 2 < rho ^ 2 \/
+       (x - B1) ^ 2 + (y - A2) ^ 2 < rho ^ 2) /\
+    (0 < rho -> D a1 r + 2 * rho <= D b1 r -> D a2 r + 2 * rho <= D b2 r ->
+     (inside (s_rounded_rectangle RD (V2 a1 a2) (V2 b1 b2) rad) r <->
+      (x - Rmax A1 (Rmin x B1)) ^ 2 + (y - Rmax A2 (Rmin y B2)) ^ 2 < rho ^ 2)).
+  Proof. exact (rounded_rectangle_inside osem a). Qed.
+
+  (* a concrete point that only the corner disc about (b1 - rad, a2 + rad) contains:
+     a = (-1,-2), b = (3,1), rad = 1/2, point (2.8, -1.8).  It is inside the shape, in none of
+     the other five pieces, and not in the disc about (b1 - rad, a1 + rad): a rounded_rectangle
+     with that corner centre mistyped is a different shape. *)
+  Theorem C18_rounded_rectangle_corner_matters :
+    let r := {| ex := 14 / 5; ey := - 9 / 5; ez := 0; ev := fun _ => 0 |} in
+    let a1 := -1 in let a2 := -2 in let b1 := 3 in let b2 := 1 in let rad := 1 / 2 in
+    inside (s_rounded_rectangle RD (V2 (SC a1) (SC a2)) (V2 (SC b1) (SC b2)) (SC rad)) r /\
+    (ex r - (b1 - rad)) ^ 2 + (ey r - (a2 + rad)) ^ 2 < rad ^ 2 /\
+    ~ (a1 < ex r < b1 /\ a2 + rad < ey r < b2 - rad) /\
+    ~ (a1 + rad < ex r < b1 - rad /\ a2 < ey r < b2) /\
+    ~ (ex r - (a1 + rad)) ^ 2 + (ey r - (a2 + rad)) ^ 2 < rad ^ 2 /\
+    ~ (ex r - (b1 - rad)) ^ 2 + (ey r - (b2 - rad)) ^ 2 < rad ^ 2 /\
+    ~ (ex r - (a1 + rad)) ^ 2 + (ey r - (b2 - rad)) ^ 2 < rad ^ 2 /\
+    ~ (ex r - (b1 - rad)) ^ 2 + (ey r - (a1 + rad)) ^ 2 < rad ^ 2.
+  Proof. exact (rounded_rectangle_corner_matters osem a). Qed.
+
+  (* rounded_box(a, b, fr): box sides positive, fraction 0 < fr <= 1, rounding radius
+     rho = fr * min(dx, dy, dz) / 2: the points at distance < rho from the inner box
+     [a + rho, b - rho].  No independence hypothesis is needed.  (False at fr = 0, where the
+     shape is the open box (a, b): StdRounded.rounded_box_inside_zero_refuted; the form that
+     also covers fr = 0 is StdRounded.rounded_box_inside_gen.) *)
+  Theorem C18_rounded_box : forall a1 a2 a3 b1 b2 b3 fr r,
+    D a1 r < D b1 r -> D a2 r < D b2 r -> D a3 r < D b3 r -> 0 < D fr r <= 1 ->
+    let x := ex r in let y := ey r in let z := ez r in
+    let rho := D fr r * Rmin (D b1 r - D a1 r) (Rmin (D b2 r - D a2 r) (D b3 r - D a3 r)) / 2 in
+    let A1 := D a1 r + rho in let B1 := D b1 r - rho in
+    let A2 := D a2 r + rho in let B2 := D b2 r - rho in
+    let A3 := D a3 r + rho in let B3 := D b3 r - rho in
+    (inside (s_rounded_box RD (V3 a1 a2 a3) (V3 b1 b2 b3) fr) r <->
+     (x - Rmax A1 (Rmin x B1)) ^ 2 + (y - Rmax A2 (Rmin y B2)) ^ 2 + (z - Rmax A3 (Rmin z B3)) ^ 2
+       < rho ^ 2).
+  Proof. exact (rounded_box_inside osem a). Qed.
+
+  (* ... and it is exact outside the inner box: the value is the Euclidean distance to the
+     inner box minus rho (the signed distance to the rounded surface); value + rho is attained
+     by a point of the closed inner box and is a lower bound for all of them *)
+  Theorem C18_rounded_box_exact : forall a1 a2 a3 b1 b2 b3 fr r,
+    D a1 r <= D b1 r -> D a2 r <= D b2 r -> D a3 r <= D b3 r -> D fr r <= 1 ->
+    let x := ex r in let y := ey r in let z := ez r in
+    let rho := D fr r * Rmin (D b1 r - D a1 r) (Rmin (D b2 r - D a2 r) (D b3 r - D a3 r)) / 2 in
+    let A1 := D a1 r + rho in let B1 := D b1 r - rho in
+    let A2 := D a2 r + rho in let B2 := D b2 r - rho in
+    let A3 := D a3 r + rho in let B3 := D b3 r - rho in
+    let inner q := A1 <= px q <= B1 /\ A2 <= py q <= B2 /\ A3 <= pz q <= B3 in
+    let v := D (s_rounded_box RD (V3 a1 a2 a3) (V3 b1 b2 b3) fr) r in
+    ~ (A1 < x < B1 /\ A2 < y < B2 /\ A3 < z < B3) ->
+    v = sqrt ((x - Rmax A1 (Rmin x B1)) ^ 2 + (y - Rmax A2 (Rmin y B2)) ^ 2 + (z - Rmax A3 (Rmin z B3)) ^ 2)
+        - rho /\
+    0 <= v + rho /\
+    (exists q, inner q /\ dist2 (pos r) q = (v + rho) * (v + rho)) /\
+    (forall q, inner q -> (v + rho) * (v + rho) <= dist2 (pos r) q).
+  Proof.
+    intros a1 a2 a3 b1 b2 b3 fr r H1 H2 H3 Hf; cbv zeta; intros Hout. split.
+    - exact (rounded_box_exact osem a a1 a2 a3 b1 b2 b3 fr r H1 H2 H3 Hf Hout).
+    - exact (rounded_box_exact_dist osem a a1 a2 a3 b1 b2 b3 fr r H1 H2 H3 Hf Hout).
+  Qed.
 End C18.
 
 (* the rotation maps are rigid motions *)
@@ -220,3 +305,7 @@ Print Assumptions C18_sphere_exact.
 Print Assumptions C18_box_exact_outside.
 Print Assumptions C18_box_exact_inside.
 Print Assumptions C18_rotations_rigid.
+Print Assumptions C18_rounded_rectangle.
+Print Assumptions C18_rounded_rectangle_corner_matters.
+Print Assumptions C18_rounded_box.
+Print Assumptions C18_rounded_box_exact.
